@@ -1,8 +1,43 @@
 (* C01 - property theorems (statements only; the proofs live in Acme.C01.ProofsXxx). *)
 From Coq Require Import ZArith List Sorted.
-From Acme.C01 Require Import Layout State Model ProofsLayout.
+From Acme.C01 Require Import Layout State Model ProofsLayout ProofsInv Refuted ProofsT1.
+Open Scope Z_scope.
 
 (* the boolean predicate evaluated on the implementation's snapshots is the declarative one *)
 Theorem wfb_iff_wf : forall size v, wfb size v = true <-> wf size v.
 Proof. exact wfb_wf. Qed.
 Print Assumptions wfb_iff_wf.
+
+(* T1. For every history whose steps satisfy the per-step hypotheses [ok_op] (ProofsInv.v: no
+   re-attachment of a placed signal (D20), SetMinSize not growing attached signals (D03), no two
+   signals of one layout sharing a growing enum (D36), resized multiplexed signals followed by
+   single-group signals only (D35), parent links of resized signals consistent (C05)), every
+   message layout of the reached state is sorted, pairwise disjoint, inside the payload. *)
+Theorem layout_wf_reachable : forall ops, ok_hist ops -> forall m,
+  wf (8 * gbytes (run ops) m) (msg_view (run ops) m).
+Proof. exact t1_layout_wf. Qed.
+Print Assumptions layout_wf_reachable.
+
+(* the invariant behind T1 (ProofsInv.InvA: well-formedness of every layout, exclusivity of
+   placement, allocation, enum bookkeeping) holds in every such state *)
+Theorem layout_invariant_reachable : forall ops, ok_hist ops -> InvA (run ops).
+Proof. exact inv_reachable. Qed.
+Print Assumptions layout_invariant_reachable.
+
+(* The statement without hypotheses ([layout_wf_full]) is refuted by the faithful model: each
+   witness leaves exactly one hypothesis and is replayed on the Go code (known findings). *)
+Theorem layout_wf_full_refuted : ~ layout_wf_full.
+Proof. exact layout_wf_full_false. Qed.
+Print Assumptions layout_wf_full_refuted.
+
+Theorem d03_refuted : exists ops m, ~ wf (8 * gbytes (run ops) m) (msg_view (run ops) m).
+Proof. exact t1_full_refuted_d03. Qed.
+Print Assumptions d03_refuted.
+
+Theorem d36_refuted : exists ops m, ~ wf (8 * gbytes (run ops) m) (msg_view (run ops) m).
+Proof. exact t1_full_refuted_d36. Qed.
+Print Assumptions d36_refuted.
+
+Theorem reattach_refuted : exists ops m, ~ wf (8 * gbytes (run ops) m) (msg_view (run ops) m).
+Proof. exact t1_full_refuted_reattach. Qed.
+Print Assumptions reattach_refuted.
